@@ -686,6 +686,16 @@ def method_exc_@I@(v):
 ''', 'method_exc_@I@(@A@)'),
 ]
 SHAPE_NAMES = [s[0] for s in SHAPES]
+# shapes that are only used when a check asks for them by name (too heavy for every program)
+EXTRA_SHAPES = [
+    ('deep_recursion', '''
+def deep_rec_@I@(n):
+    if n <= 0:
+        return 0
+    below = deep_rec_@I@(n - 1)
+    return below + 1
+''', 'deep_rec_@I@(520 + @A@ * 20)'),
+]
 
 
 class Program:
@@ -709,7 +719,7 @@ def generate(r, dirpath, tag, n_shapes=None, force=None, escaping=None):
     r.shuffle(picks)
     src = [PRELUDE.replace('@SEED@', str(r.randrange(1000)))]
     calls = []
-    table = {s[0]: s for s in SHAPES}
+    table = {s[0]: s for s in SHAPES + EXTRA_SHAPES}
     for i, name in enumerate(picks):
         _, body, call = table[name]
         a, b = r.randrange(0, 5), r.randrange(1, 5)
